@@ -1,4 +1,5 @@
 import FP.Model.Enc.KLAE
+import FP.Model.Enc.Vars
 /-!
 # FP.Model.Enc.KMPE — `kMinPathError`
 
@@ -11,8 +12,6 @@ import FP.Model.Enc.KLAE
 namespace FP
 open Lean
 
-def slackVar (i : Nat) : Var := .ix "slack" i
-def gammaVar (e : Edge) (i : Nat) : Var := .uvi "gamma" e.1 e.2 i
 def slackFactorVar (i : Nat) : Var := .ix "path_slack_scaled" i
 def scaledSlackVar (i : Nat) : Var := .ix "scaled_slack" i
 
